@@ -28,7 +28,9 @@ mod c14;
 mod c15;
 mod c16;
 mod c18;
+mod c19;
 mod c20;
+mod c21;
 
 pub struct Args {
     pub cmd: String,
@@ -93,7 +95,9 @@ fn main() {
         "c15" => c15::run(&a),
         "c16" => c16::run(&a),
         "c18" => c18::run(&a),
+        "c19" => c19::run(&a),
         "c20" => c20::run(&a),
+        "c21" => c21::run(&a),
         other => {
             eprintln!("unknown subcommand {other}");
             std::process::exit(2)
